@@ -6,9 +6,14 @@ use std::path::Path;
 
 pub mod c01;
 pub mod c02;
+pub mod c03;
+pub mod c04;
 pub mod c05;
 pub mod c07;
+pub mod c10;
+pub mod c11;
 pub mod c16;
+pub mod c19;
 
 pub struct Prop {
     pub id: &'static str,
@@ -21,8 +26,14 @@ pub struct Prop {
 pub const ALL: &[Prop] = &[
     Prop { id: "C01", level: "exploration", run: c01::run, replay: c01::replay },
     Prop { id: "C02", level: "exploration", run: c02::run, replay: c02::replay },
+    Prop { id: "C03", level: "exploration", run: c03::run, replay: c03::replay },
+    Prop { id: "C04", level: "exploration", run: c04::run, replay: c04::replay },
     Prop { id: "C05", level: "exploration", run: c05::run, replay: c05::replay },
     Prop { id: "C07", level: "exploration", run: c07::run, replay: c07::replay },
+    Prop { id: "C10", level: "exploration", run: c10::run, replay: c10::replay },
+    Prop { id: "C11", level: "exploration", run: c11::run, replay: c11::replay },
+    Prop { id: "C16", level: "exploration", run: c16::run, replay: c16::replay },
+    Prop { id: "C19", level: "exploration", run: c19::run, replay: c19::replay },
 ];
 
 pub fn find(id: &str) -> Option<&'static Prop> {
